@@ -2,6 +2,8 @@ package main
 
 import (
 	"fmt"
+	"go/ast"
+	"go/constant"
 	"go/token"
 	"go/types"
 	"strings"
@@ -110,7 +112,7 @@ func ruleC11_1(c *Ctx) {
 			continue
 		}
 		arg := s.Call.Args[0]
-		roots := flowRoots(arg, nil)
+		roots := p.resolveParamRoots(flowRoots(arg, nil), 0)
 		onRsp := false
 		for _, r := range roots {
 			if _, is := fieldLoad(r, rspBody); is {
@@ -1009,6 +1011,36 @@ func ruleC13_4(c *Ctx) {
 			}
 		}
 	}
+	// table form: for _, e := range <package-level []struct{prefix string; t Command}> { if HasPrefix(line, e.prefix) { return e.t } }
+	if len(prefix) == 0 {
+		for _, b := range rrBlocks {
+			ifi, ok := b.Instrs[len(b.Instrs)-1].(*ssa.If)
+			if !ok {
+				continue
+			}
+			call, ok := ifi.Cond.(*ssa.Call)
+			if !ok || staticCalleeName(&call.Call) != "strings.HasPrefix" {
+				continue
+			}
+			// the prefix is a string field of an element of a global slice; the true edge returns another field of that element
+			g, sf := globalElemField(call.Call.Args[1])
+			if g == nil {
+				continue
+			}
+			tb := b.Succs[0]
+			ret, ok := tb.Instrs[len(tb.Instrs)-1].(*ssa.Return)
+			if !ok {
+				continue
+			}
+			g2, tf := globalElemField(results(ret)[0])
+			if g2 != g || tf == nil {
+				continue
+			}
+			for k, s := range p.structTableRows(g, sf, tf) {
+				prefix[k] = s
+			}
+		}
+	}
 	for _, name := range []string{"RspMoved", "RspAsk"} {
 		k, _ := p.ConstInt(pkgCodec, name)
 		pre, ok := prefix[k]
@@ -1049,4 +1081,117 @@ func ruleC13_4(c *Ctx) {
 			c.undecided("parseMovedOrAsk offset for "+name, p.pos(pm.Pos()), "the offset selected for this reply type was not found")
 		}
 	}
+}
+
+// globalElemField: v is (a copy of) field f of an element of a package-level slice/array variable: returns the
+// global and the field. Handles `for _, e := range tbl { … e.f … }` (the element is copied into a local) and tbl[i].f.
+func globalElemField(v ssa.Value) (*ssa.Global, *types.Var) {
+	v = strip(v)
+	var f *types.Var
+	var base ssa.Value
+	if ff, b, ok := anyFieldLoad(v); ok {
+		f, base = ff, b
+	} else {
+		return nil, nil
+	}
+	// base: &tbl[i], or a local copy of tbl[i]
+	for i := 0; i < 4; i++ {
+		switch x := strip(base).(type) {
+		case *ssa.IndexAddr:
+			if ld, ok := strip(x.X).(*ssa.UnOp); ok {
+				if g, ok := ld.X.(*ssa.Global); ok {
+					return g, f
+				}
+			}
+			return nil, nil
+		case *ssa.Alloc:
+			// local copy: its single whole store
+			_, ws, ok := localStructStores(x, 0)
+			if !ok || len(ws) != 1 {
+				return nil, nil
+			}
+			base = ws[0].Val
+		case *ssa.UnOp:
+			base = x.X
+		default:
+			return nil, nil
+		}
+	}
+	return nil, nil
+}
+
+// structTableRows evaluates a package-level `[]struct{…}{ {…}, … }` literal: for every row the constant values of the
+// string field sf and the integer field tf (positional or keyed elements).
+func (p *Prog) structTableRows(g *ssa.Global, sf, tf *types.Var) map[int64]string {
+	out := map[int64]string{}
+	if g.Pkg == nil {
+		return out
+	}
+	vs, idx, pk := p.VarDecl(g.Pkg.Pkg.Path(), g.Name())
+	if vs == nil || idx >= len(vs.Values) {
+		return out
+	}
+	cl, ok := vs.Values[idx].(*ast.CompositeLit)
+	if !ok {
+		return out
+	}
+	st, ok := sf.Type(), true
+	_ = st
+	// field positions
+	var structT *types.Struct
+	if tv, ok := pk.TypesInfo.Types[vs.Values[idx]]; ok {
+		switch u := tv.Type.Underlying().(type) {
+		case *types.Slice:
+			structT, _ = u.Elem().Underlying().(*types.Struct)
+		case *types.Array:
+			structT, _ = u.Elem().Underlying().(*types.Struct)
+		}
+	}
+	if structT == nil {
+		return out
+	}
+	posOf := func(f *types.Var) int {
+		for i := 0; i < structT.NumFields(); i++ {
+			if structT.Field(i) == f {
+				return i
+			}
+		}
+		return -1
+	}
+	si, ti := posOf(sf), posOf(tf)
+	for _, e := range cl.Elts {
+		row, ok := e.(*ast.CompositeLit)
+		if !ok {
+			continue
+		}
+		var sv, tvv constant.Value
+		for i, el := range row.Elts {
+			expr := el
+			fi := i
+			if kv, ok := el.(*ast.KeyValueExpr); ok {
+				expr = kv.Value
+				fi = -1
+				if id, ok := kv.Key.(*ast.Ident); ok {
+					for j := 0; j < structT.NumFields(); j++ {
+						if structT.Field(j).Name() == id.Name {
+							fi = j
+						}
+					}
+				}
+			}
+			val := pk.TypesInfo.Types[expr].Value
+			if fi == si {
+				sv = val
+			}
+			if fi == ti {
+				tvv = val
+			}
+		}
+		if sv != nil && tvv != nil && sv.Kind() == constant.String {
+			if k, exact := constant.Int64Val(constant.ToInt(tvv)); exact {
+				out[k] = constant.StringVal(sv)
+			}
+		}
+	}
+	return out
 }
